@@ -15,6 +15,8 @@ enum Op {
     Set(String, String),
     Delete(String),
     Title(String),
+    /// serialize, parse the image, continue on the parsed archive (clean, same title / entries)
+    Reload,
 }
 
 const MSGS: [&str; 10] = ["", "x", "\\n", "\n", "x\\ny", "\\\\n", "\\", "n", "\\\nn", "\\n\\n"];
@@ -29,6 +31,29 @@ struct Sys {
     only_new: bool,
     /// message alphabet of set_message
     msgs: Vec<String>,
+    /// interleaving pass: a call on a SECOND live archive (other format, other keys) before
+    /// every call of the history — state kept outside the object is consumed by the wrong one
+    decoy: bool,
+}
+
+fn decoy_step(d: &mut TextArchive, k: usize) {
+    match k % 6 {
+        0 => d.set_message("a", "decoy\\nA"),
+        1 => d.set_message("zz", "decoy"),
+        2 => {
+            let _ = d.get_message("a");
+            let _ = d.serialize();
+        }
+        3 => d.delete_message("a"),
+        4 => d.set_title("decoy title".to_string()),
+        _ => {
+            if let Ok(b) = d.serialize() {
+                if let Ok(n) = TextArchive::from_bytes(&b, TextArchiveFormat::ShiftJIS, Endian::Big) {
+                    *d = n;
+                }
+            }
+        }
+    }
 }
 
 /// Second message alphabet ("text"): characters outside Shift-JIS that look like members
@@ -57,7 +82,11 @@ impl Sys {
         t.set_message("b", "seed\\nB");
         t.set_message("a", "seedA");
         let parsed_image = t.serialize().expect("serialize seed");
-        Sys { keys, fmt, endian, parsed_image, only_new: false, msgs: MSGS.iter().map(|m| m.to_string()).collect() }
+        Sys { keys, fmt, endian, parsed_image, only_new: false, msgs: MSGS.iter().map(|m| m.to_string()).collect(), decoy: false }
+    }
+    fn with_decoy(mut self) -> Sys {
+        self.decoy = true;
+        self
     }
     fn with_text_msgs(mut self) -> Sys {
         self.msgs = TEXT_MSGS.iter().map(|m| m.to_string()).collect();
@@ -83,6 +112,19 @@ impl Sys {
             Op::Set(k, m) => t.set_message(k, m),
             Op::Delete(k) => t.delete_message(k),
             Op::Title(s) => t.set_title(s.clone()),
+            Op::Reload => {}
+        }
+    }
+    /// Reload needs the format: done here, not in `apply`
+    fn apply_on(&self, t: &mut TextArchive, op: &Op) {
+        if let Op::Reload = op {
+            if let Ok(b) = t.serialize() {
+                if let Ok(n) = TextArchive::from_bytes(&b, self.fmt, self.endian) {
+                    *t = n;
+                }
+            }
+        } else {
+            Sys::apply(t, op);
         }
     }
     /// all observers; returns the list of divergences from the model
@@ -141,6 +183,11 @@ impl System for Sys {
         }
         v.push(Op::Title("".into()));
         v.push(Op::Title("T".into()));
+        // (not in the engine cross-check, whose states are rebuilt through set calls only)
+        if !self.only_new && self.encodable(&_s.0.model) && !(matches!(self.fmt, TextArchiveFormat::ShiftJIS) && !_s.0.model.title.is_empty()) {
+            // (the legacy format does not store the title: a reload would lose it)
+            v.push(Op::Reload);
+        }
         v
     }
     fn step(&self, s: &Self::State, history: &[Op], op: &Op) -> Step<Self::State> {
@@ -162,17 +209,26 @@ impl System for Sys {
                 model.delete_message(k)
             }
             Op::Title(t) => model.title = t.clone(),
+            Op::Reload => model.dirty = false,
         }
         let kind = match op {
             Op::Set(..) => "set_message",
             Op::Delete(..) => "delete_message",
             Op::Title(..) => "set_title",
+            Op::Reload => "reload",
         };
         let r = util::catch(|| {
             let mut t = self.fresh(s.0.init);
             // the init state itself must match (clean flag on new / parsed archives)
-            for o in history {
-                Sys::apply(&mut t, o);
+            let mut decoy = TextArchive::new(TextArchiveFormat::ShiftJIS, Endian::Big);
+            for (k, o) in history.iter().enumerate() {
+                if self.decoy {
+                    decoy_step(&mut decoy, k);
+                }
+                self.apply_on(&mut t, o);
+            }
+            if self.decoy {
+                decoy_step(&mut decoy, history.len());
             }
             // every query once BEFORE the call on this same instance (a lookup cache filled
             // here must not survive the call)
@@ -183,8 +239,18 @@ impl System for Sys {
             let _ = t.get_title().to_string();
             let _ = t.is_dirty();
             let _ = t.get_entries().len();
-            Sys::apply(&mut t, op);
-            let mut d = self.observe(&t, &model, false);
+            self.apply_on(&mut t, op);
+            if self.decoy {
+                // the second archive is read between the call and the observations
+                for k in ["a", "b", "zz"] {
+                    let _ = decoy.get_message(k);
+                    let _ = decoy.has_message(k);
+                }
+                let _ = decoy.get_title().to_string();
+                let _ = decoy.is_dirty();
+                let _ = decoy.get_entries().len();
+            }
+            let mut d = self.observe(&t, &model, matches!(op, Op::Reload));
             // storing a looked-up message back changes nothing (but the dirty flag)
             for k in &self.keys {
                 if let Some(g) = t.get_message(k) {
@@ -269,6 +335,7 @@ impl stateright::Model for SrModel {
             Op::Set(k, m) => model.set_message(k, m),
             Op::Delete(k) => model.delete_message(k),
             Op::Title(t) => model.title = t.clone(),
+            Op::Reload => {}
         }
         // rebuild the real archive from the model state alone, apply the call, observe
         let mut t = self.sys.fresh(0);
@@ -307,6 +374,8 @@ fn systems(tier: Tier) -> Vec<(String, Sys)> {
     ];
     v.push(("Unicode/Little/2 keys/text alphabet".to_string(), Sys::new(vec!["a", "ソn"], TextArchiveFormat::Unicode, Endian::Little).with_text_msgs()));
     v.push(("ShiftJIS/Little/2 keys/text alphabet".to_string(), Sys::new(vec!["a", "ソn"], TextArchiveFormat::ShiftJIS, Endian::Little).with_text_msgs()));
+    v.push(("Unicode/Little/3 keys/second live archive interleaved".to_string(), Sys::new(vec!["a", "b", "c"], TextArchiveFormat::Unicode, Endian::Little).with_decoy()));
+    v.push(("ShiftJIS/Big/2 keys/second live archive interleaved".to_string(), Sys::new(vec!["a", "b"], TextArchiveFormat::ShiftJIS, Endian::Big).with_decoy()));
     if tier == Tier::Thorough {
         v.push(("ShiftJIS/Big/3 keys".to_string(), Sys::new(keys3, TextArchiveFormat::ShiftJIS, Endian::Big)));
         v.push(("Unicode/Little/4 keys (depth-bounded)".to_string(), Sys::new(vec!["a", "b", "c", "d"], TextArchiveFormat::Unicode, Endian::Little)));
